@@ -316,6 +316,20 @@ def variable_sign(rep, res, entry):
                   msg=f"the variable is declared positive under a condition on {sorted(deps & {'ub', 'self.ub'})} only: with negative lower bounds "
                       f"(and non-negative upper bounds) the implicit x ≥ 0 cuts off the admissible negative intensities — in-gamut targets are "
                       f"not reproduced")
+        # … and it is declared only when EVERY lower bound is non-negative: the deciding expression is evaluated under the hypothetical
+        # content "some entries negative, some zero" of lb (np.any(lb >= 0), not np.all(lb < 0) would still declare it)
+        import ast as _ast
+        if ok and isinstance(node, _ast.Call) and getattr(o, "fn", None) is not None:
+            for k_ in node.keywords:
+                if k_.arg in ("pos", "nonneg") or k_.arg is None:
+                    r_ = guard_under(k_.value, True, "N", {"lb"}, fn_node=o.fn.node)
+                    if r_ is None:
+                        continue
+                    rep.check("R-SIGN", "the intensity variable is declared non-negative only if every lower bound is", r_ is False,
+                              where=f"{o.fn.module.relpath}:{o.node.lineno}", construct=norm_text(o.node)[:80], entry=entry, config=res.config,
+                              msg="with lower bounds of mixed sign (some negative, some ≥ 0) the deciding test is still true: the sign attribute "
+                                  "adds an implicit x ≥ 0 that overrides the negative lower bounds — targets that need a negative intensity are "
+                                  "not reproduced and the fit is not the optimum over [lb, ub]")
 
 
 def forwards(rep, res, entry, callee_names, need, rule="R-FORWARD", exact=True):
